@@ -17,7 +17,7 @@ import os
 
 import numpy as np
 
-from braxlint import avn, guards, pred
+from braxlint import scenario, avn, guards, pred
 from braxlint.avn import Poly, Rat, asarr, elemwise, fn, same, symarr, uf
 from braxlint.avnlib import MA, diff_report, new_interp, sym
 from braxlint.universe import AnalysisError, call_name, dotted, num_val, own_nodes
@@ -82,6 +82,9 @@ def r3_sites(U, rep, tier):
       if s.cls in ('CONST', 'PARAM', 'GUARDED', 'SAFE'):
         rep.ok('R3.1', key, construct='%s denominator%s' % (s.cls, (' eps=%g' % s.eps) if s.eps else ''),
                where=where, nontrivial=s.cls != 'CONST')
+        continue
+      if in_helper:
+        rep.ok('R3.1', key, construct='division inside a gradient-safe helper (contract decided by R3.4)', where=where)
         continue
       rule = 'R3.1'
       what = 'division by a state-dependent denominator without a positive epsilon / clip guard'
@@ -168,6 +171,42 @@ def _clip_bounds(U, qname):
   return None, None, None
 
 
+def _const_ratio(r):
+  """c if the rational function r equals the constant c (numerator = c * denominator as polynomials), else None."""
+  r = Rat.lift(r)
+  if r.is_const():
+    return r.constval()
+  if not r.d.t or not r.n.t:
+    return None
+  mono, b = next(iter(r.d.t.items()))
+  a = r.n.t.get(mono)
+  if a is None:
+    return None
+  c = a / b
+  return c if r.same(Rat.lift(c)) else None
+
+
+def _atoms_in(v):
+  """All atoms occurring in a value, transitively through the arguments of uninterpreted atoms."""
+  out, stack = set(), []
+  for x in asarr(v).ravel():
+    r = Rat.lift(x)
+    stack += [nm for p_ in (r.n, r.d) for mono in p_.t for nm, _ in mono]
+  while stack:
+    a = stack.pop()
+    if a in out or not isinstance(a, avn.Atom):
+      continue
+    out.add(a)
+    for arg in avn.ATOM_ARGS.get(a, (None, ()))[1]:
+      if isinstance(arg, Rat):
+        stack += [nm for p_ in (arg.n, arg.d) for mono in p_.t for nm, _ in mono]
+      elif isinstance(arg, np.ndarray):
+        for y in arg.ravel():
+          r = Rat.lift(y)
+          stack += [nm for p_ in (r.n, r.d) for mono in p_.t for nm, _ in mono]
+  return out
+
+
 def r3_4(U, rep):
   I = new_interp(U.repo, contracts=False)
   avn.JNP['allclose'] = lambda x, y, **k: uf('allclose', asarr(x), y)
@@ -181,25 +220,27 @@ def r3_4(U, rep):
   rep.check(same(got, want), 'R3.4', 'safe_norm = norm(x + z)(1 - z), z = allclose(x, 0)',
             'safe_norm no longer swaps a zero input before taking the norm: ' + diff_report(got, want),
             where=f.where())
-  # normalize: x / (n + eps [n == 0]) with eps > 0
+  # normalize: x / (n + eps [n == 0]) with eps > 0 -- decided on values, however the guard is spelled
   f = U.func('brax.math.normalize')
-  cache = {}
-  ds = [s for s in guards.sites(U, f, cache) if s.kind == 'div']
-  ok = len(ds) == 1 and ds[0].cls == 'GUARDED' and ds[0].eps and ds[0].eps > 0
-  rep.check(ok, 'R3.4', 'normalize divides by norm + eps*[norm == 0], eps > 0',
-            'normalize\'s denominator is not guarded by a positive epsilon at zero norm', where=f.where(),
-            construct=ds[0].text if ds else '')
-  if ok:
-    I2 = new_interp(U.repo, contracts=False)
-    n_ = sym('n')
-    I2.contracts[(MA, 'safe_norm')] = lambda v, axis=None: n_
-    res = I2.apply(fn(MA, 'normalize'), [x], {})
-    eps = Rat.lift(ds[0].eps)
-    isz = Rat.lift(n_)._cmp('==', 0.0) if False else I2.compare(ast.Eq(), n_, 0.0)
-    want = (x / (n_ + eps * isz), n_)
-    rep.check(isinstance(res, tuple) and len(res) == 2 and same(res[0], want[0]) and same(res[1], want[1]),
-              'R3.4', 'normalize = (x / (safe_norm(x) + eps [norm==0]), safe_norm(x))',
-              'normalize differs from its contract: ' + diff_report(res, want), where=f.where())
+  I2 = new_interp(U.repo, contracts=False)
+  n_ = sym('n')
+  I2.contracts[(MA, 'safe_norm')] = lambda v, axis=None: n_
+  res = I2.apply(fn(MA, 'normalize'), [x], {})
+  okn, why = False, 'normalize does not return (direction, norm)'
+  if isinstance(res, tuple) and len(res) == 2 and same(res[1], n_):
+    r0 = Rat.lift(asarr(res[0])[0])
+    zatoms = [nm for p_ in (r0.n, r0.d) for mono in p_.t for nm, _ in mono if avn._is_bool_name(nm)]
+    at_zero = scenario.subst(asarr(res[0]), scenario.atoms_false([], atoms_one=zatoms))       # every [n == 0]-type gate open
+    off_zero = scenario.subst(asarr(res[0]), scenario.atoms_false(zatoms))
+    why = 'away from zero norm normalize is not x / norm'
+    if same(off_zero, x / n_):
+      den = x[0] / Rat.lift(at_zero[0]) - n_        # the denominator used at zero norm, minus the norm
+      why = 'at zero norm the denominator is not norm + (a positive constant)'
+      eps = _const_ratio(den)
+      if eps is not None and eps > 0 and same(at_zero, x / (n_ + Rat.lift(eps))):
+        okn = True
+  rep.check(okn, 'R3.4', 'normalize = (x / (safe_norm(x) + eps [norm==0]), safe_norm(x)), eps > 0',
+            'normalize differs from its contract: ' + why, where=f.where())
   # JVPs
   for name, sign in (('arccos', -1), ('arcsin', 1)):
     prim, jvp = 'brax.math.safe_' + name, 'brax.math._safe_%s_jvp' % name
@@ -215,17 +256,25 @@ def r3_4(U, rep):
               '@safe_%s.defjvp' % name, where=fp.where())
     if fj is None:
       continue
-    lo, hi, node = _clip_bounds(U, fj.qname)
+    # the JVP is interpreted (helpers it calls included) and the clip bounds are read off its normal form
+    I3 = new_interp(U.repo, contracts=False)
+    I3.contracts[(MA, 'safe_' + name)] = lambda v: uf(name, v)
+    xv, xd = sym('x'), sym('xdot')
+    res = I3.apply(fn(MA, fj.node.name), [(xv,), (xd,)], {})
+    lo = hi = cat = None
+    if isinstance(res, tuple) and len(res) == 2:
+      for at in avn.free_symbols(asarr(res[1])) | _atoms_in(asarr(res[1])):
+        if isinstance(at, avn.Atom) and at.kind == 'clip':
+          a_ = avn.ATOM_ARGS[at][1]
+          if len(a_) >= 3 and Rat.lift(a_[0]).same(xv) and Rat.lift(a_[1]).is_const() and Rat.lift(a_[2]).is_const():
+            lo, hi = float(Rat.lift(a_[1]).constval()), float(Rat.lift(a_[2]).constval())
+            cat = at
     okb = lo is not None and -1 < lo < 0 < hi < 1
     rep.check(okb, 'R3.4', 'safe_%s JVP clips strictly inside (-1, 1)' % name,
               'the JVP of safe_%s does not clip its argument strictly inside (-1, 1): bounds %r, %r' % (name, lo, hi),
-              where=fj.where(node))
+              where=fj.where())
     if okb:
-      I3 = new_interp(U.repo, contracts=False)
-      I3.contracts[(MA, 'safe_' + name)] = lambda v: uf(name, v)
-      xv, xd = sym('x'), sym('xdot')
-      res = I3.apply(fn(MA, fj.node.name), [(xv,), (xd,)], {})
-      c = uf('clip', xv, lo, hi)
+      c = Rat(avn.Poly.sym(cat))
       want_t = Rat.lift(sign) * xd / uf('sqrt', 1 - c * c)
       okj = isinstance(res, tuple) and len(res) == 2 and same(res[0], uf(name, xv))
       # sqrt(1 - c**2.0): pow with float exponent 2.0 is handled as integer power
